@@ -10,6 +10,7 @@ import (
 	"io"
 	"os"
 	"path/filepath"
+	"reflect"
 	"sort"
 	"strings"
 	"sync"
@@ -28,6 +29,7 @@ import (
 	"github.com/containerd/stargz-snapshotter/metadata"
 	memorymetadata "github.com/containerd/stargz-snapshotter/metadata/memory"
 	"github.com/containerd/stargz-snapshotter/task"
+	fusefs "github.com/hanwen/go-fuse/v2/fs"
 	digest "github.com/opencontainers/go-digest"
 	ocispec "github.com/opencontainers/image-spec/specs-go/v1"
 )
@@ -174,6 +176,30 @@ func (c *verifCache) presentKeys() []string {
 	return out
 }
 
+// verifTimeoutSec is the prefetch timeout as the configuration takes it (whole seconds, at least one).
+func verifTimeoutSec(d time.Duration) int64 {
+	if d < time.Second {
+		return 1
+	}
+	return int64(d / time.Second)
+}
+
+// verifLookupID walks a clean name through the exported metadata API.
+func verifLookupID(md metadata.Reader, name string) (uint32, error) {
+	id := md.RootID()
+	if name == "" {
+		return id, nil
+	}
+	for _, c := range strings.Split(name, "/") {
+		cid, _, err := md.GetChild(id, c)
+		if err != nil {
+			return 0, err
+		}
+		id = cid
+	}
+	return id, nil
+}
+
 // ---- the fixture --------------------------------------------------------------------------
 
 type verifFile struct {
@@ -228,10 +254,13 @@ type verifStack struct {
 	root string
 	res  *Resolver
 	lref Layer
-	l    *layer
-	tree *verifc02.Tree
-	meta *verifc02.Meta
-	wc   *verifCache
+	// vr is found by its (exported) type below the resolved layer, not by field names; nil = not found,
+	// then the harness runs degraded (oracle only, no instrumented chunk cache)
+	vr       *reader.VerifiableReader
+	degraded bool
+	tree     *verifc02.Tree
+	meta     *verifc02.Meta
+	wc       *verifCache
 
 	files   []*verifFile
 	byName  map[string]int      // clean real path -> index into files
@@ -297,13 +326,13 @@ func verifNewStack(t *testing.T, ents []verifc02.Ent, opts verifc02.BuildOpts, c
 		DirectoryCacheConfig: config.DirectoryCacheConfig{MaxLRUCacheEntry: cfg.lru, MaxCacheFds: cfg.fds,
 			SyncAdd: cfg.syncAdd, Direct: cfg.direct},
 		PrefetchAsyncSize:  cfg.asyncSize,
-		PrefetchTimeoutSec: 1,
+		PrefetchTimeoutSec: verifTimeoutSec(cfg.timeout),
 	}
 	if cfg.fsCache == "memory" {
-		fcfg.FSCacheType = memoryCacheType
+		fcfg.FSCacheType = "memory"
 	}
 	if cfg.httpCache == "memory" {
-		fcfg.HTTPCacheType = memoryCacheType
+		fcfg.HTTPCacheType = "memory"
 	}
 	fcfg.PassThrough = cfg.passThrough
 	fcfg.MergeBufferSize = cfg.mergeBuf
@@ -316,9 +345,6 @@ func verifNewStack(t *testing.T, ents []verifc02.Ent, opts verifc02.BuildOpts, c
 		s.close()
 		return nil, err
 	}
-	if cfg.timeout > 0 {
-		s.res.prefetchTimeout = cfg.timeout
-	}
 	refspec, err := reference.Parse(s.reg.RegHost + "/img/test:latest")
 	if err != nil {
 		s.close()
@@ -330,20 +356,27 @@ func verifNewStack(t *testing.T, ents []verifc02.Ent, opts verifc02.BuildOpts, c
 		return nil, fmt.Errorf("resolve: %w", err)
 	}
 	s.lref = lr
-	s.l = lr.(*layerRef).layer
-	reader.VerifC02WrapCache(s.l.verifiableReader, func(in cache.BlobCache) cache.BlobCache {
-		s.wc = newVerifCache(in)
-		return s.wc
-	})
+	if v := verifc02.FindOfType(lr, reflect.TypeOf((*reader.VerifiableReader)(nil)), 6); v.IsValid() && !v.IsNil() {
+		s.vr = v.Interface().(*reader.VerifiableReader)
+	}
+	s.wc = newVerifCache(cache.NewMemoryCache()) // placeholder until (unless) the real cache is wrapped
+	wrapped := false
+	if s.vr != nil {
+		wrapped = reader.VerifC02WrapCache(s.vr, func(in cache.BlobCache) cache.BlobCache {
+			s.wc = newVerifCache(in)
+			return s.wc
+		})
+	}
+	s.degraded = !wrapped
 	if cfg.verify {
-		if err := s.l.Verify(tocDgst); err != nil {
+		if err := lr.Verify(tocDgst); err != nil {
 			s.close()
 			return nil, fmt.Errorf("verify: %w", err)
 		}
 	} else {
-		s.l.SkipVerify()
+		lr.SkipVerify()
 	}
-	rootNode, err := s.l.RootNode(7)
+	rootNode, err := lr.RootNode(7)
 	if err != nil {
 		s.close()
 		return nil, fmt.Errorf("rootnode: %w", err)
@@ -357,20 +390,33 @@ func verifNewStack(t *testing.T, ents []verifc02.Ent, opts verifc02.BuildOpts, c
 		names = append(names, n)
 	}
 	sort.Strings(names)
-	md := s.l.r.Metadata()
+	var md metadata.Reader
+	if s.vr != nil {
+		md = s.vr.Metadata()
+	} else {
+		s.degraded = true
+	}
 	for _, n := range names {
 		tf := tfiles[n]
 		if n == estargz.TOCTarName {
 			continue
 		}
-		id, err := lookup(md, n)
-		if err != nil {
-			s.close()
-			return nil, fmt.Errorf("metadata lookup of %q: %w", n, err)
+		var id uint32
+		if md != nil {
+			id, err = verifLookupID(md, n)
+			if err != nil {
+				s.close()
+				return nil, fmt.Errorf("metadata lookup of %q: %w", n, err)
+			}
 		}
 		f := &verifFile{name: n, id: id, size: tf.Size, chunks: tf.Chunks, end: tf.End}
-		if off, err := md.GetOffset(id); err == nil {
-			f.first = off
+		if len(tf.Chunks) > 0 {
+			f.first = tf.Chunks[0].Offset
+		}
+		if md != nil {
+			if off, err := md.GetOffset(id); err == nil {
+				f.first = off
+			}
 		}
 		if vn, ok := s.view[n]; ok && vn.Type == tar.TypeReg && vn.Path == n {
 			f.data = vn.Content
@@ -568,7 +614,10 @@ func (s *verifStack) resync(out *verifutil.Out) {
 // opLookup compares ChunkEntryForOffset of the real metadata file with the model.
 func (s *verifStack) opLookup(out *verifutil.Out, fi int, x int64) {
 	f := s.files[fi]
-	mf, err := s.l.r.Metadata().OpenFile(f.id)
+	if s.vr == nil {
+		return
+	}
+	mf, err := s.vr.Metadata().OpenFile(f.id)
 	if err != nil {
 		out.Fail("metadata-openfile-failed", fmt.Sprintf("OpenFile(%q): %v", f.name, err))
 		return
@@ -600,11 +649,11 @@ func (s *verifStack) opCacheFiles(out *verifutil.Out, limit int64, bg bool, faul
 	s.rt.Set(fault == verifFailFetch)
 	var err error
 	if bg {
-		err = s.l.BackgroundFetch()
+		err = s.lref.BackgroundFetch()
 	} else if limit < 0 {
-		err = s.l.verifiableReader.Cache()
+		err = s.vr.Cache()
 	} else {
-		err = s.l.verifiableReader.Cache(reader.WithFilter(func(o int64) bool { return o < limit }))
+		err = s.vr.Cache(reader.WithFilter(func(o int64) bool { return o < limit }))
 	}
 	s.rt.Set(false)
 	stored := s.showKeys(s.wc.committed())
@@ -809,10 +858,9 @@ func (s *verifStack) opPassthrough(out *verifutil.Out, p string, dropMerged bool
 		return
 	}
 	defer verifc02.ReleaseFH(fh)
-	lf, isFile := fh.(*file)
 	fd, has := -1, false
-	if isFile {
-		fd, has = lf.PassthroughFd()
+	if pf, isPF := fh.(fusefs.FilePassthroughFder); isPF {
+		fd, has = pf.PassthroughFd()
 	}
 	ctx := fmt.Sprintf("file %q (size %d, %d chunks) [%s | %s mergebuf=%d workers=%d]", p, f.size, len(f.chunks), s.opts, s.cfg, s.cfg.mergeBuf, s.cfg.mergeWorkers)
 	out.Comment(fmt.Sprintf("passthrough %d fd=%v drop=%v", fi, has, dropMerged))
@@ -930,7 +978,7 @@ func verifPickRead(rnd *verifutil.Rand, size int64, chunks []verifc02.TocChunk) 
 
 // verifHistory drives one layer through a random access history.
 func verifHistory(t *testing.T, out *verifutil.Out, rnd *verifutil.Rand, s *verifStack, nops int, label string) {
-	modelled := !s.cfg.passThrough && s.cfg.syncAdd
+	modelled := !s.cfg.passThrough && s.cfg.syncAdd && !s.degraded
 	out.Comment(fmt.Sprintf("%s: %d tar entries, %s, %s", label, len(s.ents), s.opts, s.cfg))
 	s.meta.Out = out
 	s.emitLayout(out)
@@ -1300,7 +1348,9 @@ func verifPassthroughScenarios(t *testing.T, out *verifutil.Out, rnd *verifutil.
 		s.meta.Out = out
 		if k%2 == 1 {
 			// chunks cached by a prefetch-store before the first open
-			s.l.verifiableReader.Cache(reader.WithFilter(func(int64) bool { return true }))
+			if s.vr != nil {
+				s.vr.Cache(reader.WithFilter(func(int64) bool { return true }))
+			}
 			for i := int64(0); i < nchunks; i += 2 {
 				s.wc.evict(reader.VerifC02GenID(s.files[s.byName["big"]].id, i*chunk, chunk))
 			}
